@@ -10,7 +10,7 @@ technique = {
  "C01": "online invariant at the hook (under the total's own lock) + API-boundary observers + model + directed sweeper/worker races",
  "C02": "offline per-key history checker with unique tokens (concurrent histories) + lock-step model; TSan/ASan/Miri in the thorough tier",
  "C03": "lock-step reference model with noise threads and saturated budgets + concurrent final-value clause + directed sweeper races",
- "C04": "lock-step model + directed pre-acknowledgement window + concurrent history checker + held-client coherence probes",
+ "C04": "lock-step model + directed pre-acknowledgement window + concurrent history checker + held-client coherence probes + instance-counting values (a deleted value must be dropped once every thread is idle)",
  "C05": "quiescent snapshot consistency + directed same-key / sweeper-vs-worker / held-client races",
  "C06": "admission decisions recomputed from independent observations (component level and end-to-end through CacheD)",
  "C07": "lock-step model over key life-cycle states + directed racing puts + concurrent outcome clauses",
@@ -23,7 +23,7 @@ technique = {
  "C14": "exhaustive byte cases + reference sketch differential + end-to-end estimate lower bound",
  "C15": "skew-immune online inequality + quiescent identities with stalled consumer",
  "C16": "statistics identities after every step of S-mode and at the quiescent point of concurrent runs",
- "C17": "catch_unwind + thread-exit guards + panic hook over boundary inputs",
+ "C17": "catch_unwind + thread-exit guards + panic hook over boundary inputs (incl. a clock stepping backwards, 40 KiB inline values: a shard aborted by a stack overflow is a finding)",
  "C18": "stress at maximal lock sharing + logical hang detection; TSan/Miri in the thorough tier",
 }
 checks = []
@@ -37,13 +37,18 @@ for p in props:
         "evidence_file": "/verif/evidence/%s.json" % pid,
         "replay_cmd_template": "./check %s --replay {path}" % pid,
         "engine": " + ".join(engines) + (" + miri" if pl.get("extras") else ""),
-        "technique": "runtime monitoring: " + technique[pid],
+        "technique": "runtime monitoring: " + technique[pid] + ("; the cache-level shards run in three flavours: u64 keys/values, boxed keys/values whose Hash/Eq/Clone/Drop are seeded schedule points and self-checking, and 40 KiB inline values" if any("/" in a[0][0] for a in pl["shards"]) else ""),
         "level_claimed": {"category": "exploration",
                           "text": "Held on the executions this run produced, nothing more: " + pl["explanation"][:1400],
                           "design_ref": "DESIGN.md §5 " + pid + " and Part II §7"},
         "level_note": "Trusted base: the verif hooks in /repo (add-only, cfg-guarded), the harness oracle/model, rustc. Coverage is sampling: seeded generators, schedule perturbation, stretched sites and directed gates; unobserved interleavings and inputs are not covered. Required observations (a run that misses one is INCONCLUSIVE, not a pass): " + ", ".join(pl["require"][:8]) + ". " + "; ".join(pl["assumptions"][:3]),
     })
 m["checks"] = checks
+m["engines"] = [e for e in m["engines"] if e["name"] != "typed"] + [{
+    "name": "typed", "path": "harness/src/typed.rs",
+    "kind_free_text": "typed flavours of seq / conc (cargo features typed, big; binaries target-typed, target-big): sut::Cache wraps a real CacheD<TKey, TVal> behind the u64 surface of the scenarios; Hash / Eq / Clone / Drop of the key and value types are user-code schedule points (bounded seeded delays inside and between DashMap calls), values verify checksum + payload (+ a 40 KiB inline page) on every read, instances are counted (created + cloned - dropped) for the value-release oracle",
+    "serves_properties": sorted(c["property_id"] for c in checks if "typed/" in c["engine"] or "big/" in c["engine"])}]
+m["setup_cmd"] = "./setup.sh"
 m["hooks"]["source_commits"] = ["a2ceb03", "1bc4573", "aa630dd", "462e88e"]
 m["not_applicable"] = []
 json.dump(m, open(os.path.join(ROOT, "MANIFEST.json"), "w"), indent=1)
